@@ -12,6 +12,7 @@ J=${1:-8}
 export PATH=/opt/veriftools/go1.26.8/bin:$PATH GOFLAGS=-mod=mod GOPROXY=off GOSUMDB=off GOTOOLCHAIN=local
 unset GOWORK
 OUT=$(mktemp -d /tmp/selftest.XXXXXX); trap 'rm -rf "$OUT"' EXIT
+mkdir -p notes; exec > >(tee notes/selftest.log) 2>&1
 fail=0
 echo "== 1. unchanged tree"
 for i in $(seq -w 1 20); do echo C$i; done | xargs -P $J -I{} sh -c "bin/pcheck -prop {} -tier quick -no-evidence > $OUT/clean.{}.log 2>&1; echo \$? > $OUT/clean.{}.rc"
